@@ -49,6 +49,7 @@ type Cluster struct {
 	Net     *Transport
 	Timeout time.Duration
 	Perms   map[string][]*checker.Permissions
+	AdminIPs []string
 }
 
 // PeersWrap is the real static peers service with Suitable re-implemented: the real one iterates
@@ -84,12 +85,16 @@ type ClusterCfg struct {
 	NdAccounts int // accounts per node in nd wallet "Wallet 1" (0 = none)
 	Specs      []WalletSpec
 	NameFmt    string // instance / peer names; default "signer-%02d"
+	AdminIPs   []string // administrator addresses of every instance; default 10.0.0.1
 }
 
 // NewCluster builds n instances, each with its own wallet store, badger directory and services.
 func NewCluster(t *testing.T, rc *RunCtx, s *Sched, cfg ClusterCfg) *Cluster {
 	InitBLS()
-	c := &Cluster{rc: rc, t: t, S: s, byName: map[string]*Node{}, Timeout: cfg.Timeout, Perms: cfg.Perms}
+	c := &Cluster{rc: rc, t: t, S: s, byName: map[string]*Node{}, Timeout: cfg.Timeout, Perms: cfg.Perms, AdminIPs: cfg.AdminIPs}
+	if c.AdminIPs == nil {
+		c.AdminIPs = []string{"10.0.0.1"}
+	}
 	if c.Timeout == 0 {
 		c.Timeout = 70 * time.Second
 	}
@@ -137,7 +142,7 @@ func NewCluster(t *testing.T, rc *RunCtx, s *Sched, cfg ClusterCfg) *Cluster {
 
 // startNode (re)starts the instance of a node on a storage directory.
 func (c *Cluster) startNode(n *Node, dir string) {
-	inst, err := NewInstance(c.S, n.Name, InstCfg{Dir: dir, Pop: n.Pop, Permissions: c.Perms, AdminIPs: []string{"10.0.0.1"},
+	inst, err := NewInstance(c.S, n.Name, InstCfg{Dir: dir, Pop: n.Pop, Permissions: c.Perms, AdminIPs: c.AdminIPs,
 		MakeProcess: func(inst *Instance) (process.Service, error) {
 			ul, err := localunlocker.New(inst.Ctx, localunlocker.WithWalletPassphrases([]string{"pass"}), localunlocker.WithAccountPassphrases([]string{"pass"}))
 			if err != nil {
